@@ -70,6 +70,9 @@ SHAPES = [
     ("typename", "{ __typename o { __typename x } a }", ["Query.o", "Obj.x", "Query.a"]),
     # root type with exactly one field, selected repeatedly through aliases (schema-shape shortcuts)
     ("single-root", "{ p: o { x } q: o(id: 2) { x o { x } } }", ["Query.o", "Obj.x", "Obj.o"], "single"),
+    ("scalar-list", "{ nums a w }", ["Query.nums", "Query.a", "Query.w"]),
+    # a response key selected directly and again inside a later fragment, another key in between
+    ("dup-in-fragment", "{ a ...F w } fragment F on Query { b a o { x } }", ["Query.a", "Query.b", "Query.w", "Obj.x"]),
     ("fragments", "{ ...F ... on Query { b } } fragment F on Query { a o { ...G } } fragment G on Obj { x y }", ["Query.a", "Query.b", "Obj.x", "Obj.y"]),
 ]
 STYLES = ("default", "sync", "async", "nested")
@@ -124,6 +127,7 @@ def cases(tier):
 
 LIST_FIELDS = ("l", "ln", "u", "m4")
 ABSTRACT_FIELDS = ("i", "u")
+INT_FIELDS = ("a", "b", "c", "x", "y", "z", "w", "s", "p", "q", "t")
 
 
 def _override_sets(paths, tier):
@@ -136,6 +140,10 @@ def _override_sets(paths, tier):
             yield {p: "lazy-err"}
         if last in ABSTRACT_FIELDS:
             yield {p: "type-err"}
+        if last in INT_FIELDS:
+            yield {p: "bad"}
+        if last == "nums":
+            yield {p: "bad-item"}
     if tier == "thorough":
         for p, q in itertools.combinations(paths, 2):
             for o1, o2 in (("err", "err"), ("err", "null"), ("null", "err"), ("err", "boom"), ("boom", "err")):
